@@ -86,7 +86,7 @@ theorem C12_source_detached_shape (i c s L n a : Nat) :
     Gen.detSetIndex.index' i c s L n a = n ∧ Gen.detSetIndex.cached' i c s L n a = 0 ∧
     Gen.detReset.index' i c s L n a = s ∧ Gen.detReset.cached' i c s L n a = 0 ∧
     Gen.detAdvance.index' i c s L n a = Gen.advanceLocal.index' i c s L n a ∧ Gen.adetAdvance.index' i c s L n a = Gen.advanceLocal.index' i c s L n a ∧
-    Gen.skelAttach = [⟨.syncIndex, .none⟩] ∧ Gen.skelDetSync = [⟨.setAtomicIndex, .index⟩] ∧ Gen.skelDetAdvance = [⟨.advanceLocal, .count⟩] ∧
+    Gen.skelAttach = [⟨.setAtomicIndex, .index⟩] ∧ Gen.skelDetSync = [⟨.setAtomicIndex, .index⟩] ∧ Gen.skelDetAdvance = [⟨.advanceLocal, .count⟩] ∧
     Gen.skelDetReset.map (·.name) = [.succIndex] ∧ Gen.skelDetSetIndex = [] ∧ Gen.skelDetGoBack = [] :=
   ⟨rfl, rfl, rfl, rfl, rfl, rfl, rfl, rfl, rfl, rfl, rfl, rfl, rfl, rfl, rfl, rfl, rfl, rfl, rfl, rfl⟩
 
